@@ -385,6 +385,8 @@ fn check_disrupt(rep: &mut Report, cfg: &Cfg, x: u64, keys: &[String]) {
 
 // ---------------------------------------------------------------- route
 
+static OVERFLOW_CASES: std::sync::atomic::AtomicU64 = std::sync::atomic::AtomicU64::new(0);
+
 /// One routed batch. ctor: "new" | "new+self-addr" | "from_config"; via: "route_deltas" | "route_with_stats" | "queue_deltas".
 /// `ops` change the shared ring (and the router's peer table) after the router was built.
 #[derive(Clone, Debug)]
@@ -495,6 +497,17 @@ fn route_outcome(c: &RouteCase) -> Result<Option<Discrepancy>, String> {
                 let all_peers: Vec<ReplicaId> = router.peer_ids().copied().filter(|p| *p != me).collect();
                 let mut st = GossipState::with_router(rcfg.clone(), router);
                 st.epoch = 7;
+                // one case in eight: between two drains the loop stalled - an earlier batch is still queued and heartbeats have
+                // pushed the outbound queue past its bound (the oldest frames were dropped) when this batch is queued. Whatever
+                // was lost of the old batch, this one still goes to its owners and to nobody else.
+                if (c.sender as usize + c.batch.len()) % 8 == 0 {
+                    OVERFLOW_CASES.fetch_add(1, std::sync::atomic::Ordering::Relaxed);
+                    let pre: Vec<ReplicationDelta> = c.batch.iter().enumerate().map(|(i, k)| ReplicationDelta::new(format!("earlier:{}", k), ReplicatedValue::with_value(payload_for(c_batch_len, i), LamportClock { time: 1_000_000 + i as u64, replica_id: me }), me)).collect();
+                    st.queue_deltas(pre);
+                    for _ in 0..redis_sim::replication::gossip::MAX_OUTBOUND_QUEUE + 3 {
+                        st.queue_heartbeat();
+                    }
+                }
                 st.queue_deltas(deltas);
                 st.verify_invariants();
                 for m in st.drain_outbound() {
@@ -1082,6 +1095,7 @@ pub fn place_leg(args: &Args) {
     }
     rep.exhaustive = true;
     rep.note("exhaustive for all subsets of the two 5-id pools x rf {1,2,3,6} x vnodes {1,3,150} with every insertion permutation (over the shards together); larger memberships, histories, keys and batches are sampled");
+    rep.add("route:queue_deltas_after_outbound_queue_overflow", OVERFLOW_CASES.load(std::sync::atomic::Ordering::Relaxed));
     rep.finish(args);
 }
 
